@@ -574,7 +574,10 @@ class MiniInterp:
                     if not isinstance(sp, str):
                         raise Unknown("format spec")
                     spec = sp
-                if isinstance(x, (int, float, str, bool, type(None))):
+                def plain(v):
+                    return isinstance(v, (int, float, str, bool, type(None))) or (isinstance(v, (list, tuple)) and all(plain(y) for y in v)) or \
+                        (isinstance(v, dict) and all(plain(k) and plain(y) for k, y in v.items()))
+                if plain(x):
                     try:
                         if v.conversion == ord("r"):
                             x = repr(x)
@@ -782,7 +785,10 @@ class MiniInterp:
                     if not isinstance(sp, str):
                         raise Unknown("format spec")
                     spec = sp
-                if isinstance(x, (int, float, str, bool, type(None))):
+                def plain(v):
+                    return isinstance(v, (int, float, str, bool, type(None))) or (isinstance(v, (list, tuple)) and all(plain(y) for y in v)) or \
+                        (isinstance(v, dict) and all(plain(k) and plain(y) for k, y in v.items()))
+                if plain(x):
                     try:
                         if v.conversion == ord("r"):
                             x = repr(x)
@@ -917,6 +923,8 @@ class MiniInterp:
                     return self.ev(c.class_attrs[attr], {}, f0)
             raise Unknown(f"class attribute {attr}")
         if isinstance(obj, tuple) and obj and obj[0] == "external":
+            if (obj[1], attr) in (("os.path", "sep"), ("os", "sep")):
+                return "/"
             if obj[1] == "re" and attr in ("IGNORECASE", "I", "MULTILINE", "M", "DOTALL", "S", "VERBOSE", "X", "ASCII", "A"):
                 return int(getattr(_re, attr))
             return ("external", f"{obj[1]}.{attr}")
@@ -1036,6 +1044,21 @@ class MiniInterp:
             if base == "deepcopy" and len(args) == 1:
                 return self.deepcopy(args[0])
             mod = f[1].replace(":", ".").split(".")[0]
+            if mod == "json" and base in ("dumps", "loads"):
+                import json as _json
+
+                def plain(v):
+                    if isinstance(v, (str, int, float, bool)) or v is None:
+                        return v
+                    if isinstance(v, (list, tuple)):
+                        return [plain(x) for x in v]
+                    if isinstance(v, dict):
+                        return {plain(k): plain(x) for k, x in v.items()}
+                    raise Unknown(f"json.{base} of a symbolic value")
+                try:
+                    return getattr(_json, base)(plain(args[0]), **{k: plain(v) for k, v in kwargs.items()})
+                except (ValueError, TypeError) as e:
+                    raise PyRaise(type(e).__name__ if type(e).__name__ != "JSONDecodeError" else "ValueError", n)
             if mod == "re" and base in ("compile", "match", "search", "fullmatch", "sub", "findall", "escape") and \
                     all(isinstance(a, (str, int, _re.Pattern)) for a in args) and all(isinstance(v, (str, int)) for v in kwargs.values()):
                 try:
